@@ -168,7 +168,7 @@ def run(fx, chk, tier):
     chk.assume("A-MEM: in-memory collections have fewer than 2^32 elements")
     ents = muxer_entries(fx)
     ua = panicfree.user_adts(fx, ents)
-    eng = panicfree.Engine(fx, chk, ents, {}, [], field_exclude=ua)
+    eng = panicfree.Engine(fx, chk, ents, {}, [], profile=getattr(fx, "profile", "dev"), field_exclude=ua)
     cg = eng.cg
     guarded_f, unguarded_f, vstores = version_bumps(fx, eng)
     ncast = 0
